@@ -13,6 +13,9 @@ def files():
     a = G.add_service(fd, "WidgetService")
     G.add_method(a, "GetWidget", ".acme.lab.v1.Req", ".acme.lab.v1.Resp", http=("get", "/v1/{name=w/*}"))
     G.add_method(a, "Import", ".acme.lab.v1.Req", ".acme.lab.v1.Resp", http=("post", "/v1/{name=w/*}:import"), body="*")
+    # reserved (builtin) but not a keyword: the client method is `list`; lower-cased keyword of two words: `non_local`
+    G.add_method(a, "List", ".acme.lab.v1.Req", ".acme.lab.v1.Resp", http=("get", "/v1/{parent=p/*}/widgets"))
+    G.add_method(a, "NonLocal", ".acme.lab.v1.Req", ".acme.lab.v1.Resp", http=("get", "/v1/{name=w/*}:nonLocal"))
     G.add_method(a, "PurgeWidgets", ".acme.lab.v1.Req", ".acme.lab.v1.Resp", http=("post", "/v1/{parent=p/*}:purge"), body="*")
     b = G.add_service(fd, "AuditService")
     G.add_method(b, "Global", ".acme.lab.v1.Req", ".acme.lab.v1.Resp", http=("get", "/v1/{name=g/*}"))
@@ -44,7 +47,7 @@ def check(transport, selective=None, namespace=None):
     with G.materialised(res):
         import importlib
         pkg = importlib.import_module("acme.lab_v1")
-        services = {"WidgetService": ["GetWidget", "Import", "PurgeWidgets"], "AuditService": ["Global"], "IdleService": []}
+        services = {"WidgetService": ["GetWidget", "Import", "List", "NonLocal", "PurgeWidgets"], "AuditService": ["Global"], "IdleService": []}
         if sorted(meta.get("services", {})) != sorted(services):
             failures.append(dict(label, what="services listed", got=sorted(meta.get("services", {}))))
         for s, rpcs in services.items():
@@ -68,10 +71,11 @@ def check(transport, selective=None, namespace=None):
         mt = re.search(r"METHOD_TO_PARAMS: Dict\[str, Tuple\[str\]\] = (\{.*?\n    \})", script, re.S)
         table = eval(mt.group(1)) if mt else {}
         order = ("force", "parent", "name", "type_", "note")     # required first (declaration order), then the rest
-        for key in ("get_widget", "import", "purge_widgets", "global"):
+        keys = ("get_widget", "import", "list", "non_local", "purge_widgets", "global")
+        for key in keys:
             if table.get(key) != order:
                 failures.append(dict(label, what=f"fix-up table entry {key!r}", got=table.get(key), want=order))
-        if sorted(table) != sorted(["get_widget", "import", "purge_widgets", "global"]):
+        if sorted(table) != sorted(keys):
             failures.append(dict(label, what="fix-up table keys", got=sorted(table)))
     return failures
 
